@@ -8,10 +8,17 @@ VARIABLES hist, finished, kind   \* kind: the kind of the next mutation, chosen 
 ggvars == <<vars, hist, finished, kind>>
 NoF == [a \in Addrs |-> "none"]
 
-Rec(op, a, t, o, k, f) ==
-  hist' = Append(hist, [op |-> op, a |-> a, t |-> t, o |-> o, k |-> k, f |-> f,
+Orders(f) ==
+  LET as == {a \in Addrs : f[a] # "none"}
+      n  == Cardinality(as)
+  IN {p \in [1..n -> as] : \A i \in 1..n, j \in 1..n : i # j => p[i] # p[j]}
+
+RecO(op, a, t, o, k, f, ord) ==
+  hist' = Append(hist, [op |-> op, a |-> a, t |-> t, o |-> o, k |-> k, f |-> f, order |-> ord,
                         readd |-> (op = "Add" /\ all[a] # NoObj /\ all[a] # o /\ all[a] \in Range(cache)),
                         obs |-> [cache |-> cache', all |-> all', flag |-> flag', nobj |-> nobj']])
+
+Rec(op, a, t, o, k, f) == RecO(op, a, t, o, k, f, <<>>)
 
 SInit == Init /\ hist = <<>> /\ finished = FALSE /\ kind = ""
 
@@ -27,7 +34,8 @@ SNext ==
           \/ kind = "remove" /\ RemoveFresh(a, t) /\ Rec("Remove", a, t, NoObj, "", NoF)
      \/ \E o \in Objs :
           \/ kind = "addx" /\ AddExisting(o) /\ Rec("Add", oaddr[o], otype[o], o, "", NoF)
-     \/ \E f \in ReplaceArgs : kind = "replace" /\ ReplaceAll(f) /\ Rec("ReplaceAll", 0, "", nobj + 1, "", f)
+     \/ \E f \in ReplaceArgs : \E ord \in Orders(f) :
+          kind = "replace" /\ ReplaceAll(f) /\ RecO("ReplaceAll", 0, "", nobj + 1, "", f, ord)
      \/ \E o \in Objs, k \in {"healthy", "unhealthy"} :
           kind = "mark" /\ flag[o] # (k = "healthy") /\ MarkAtomic(o, k) /\ Rec("Mark", oaddr[o], otype[o], o, k, NoF)
      \/ kind \in {"addx", "mark"} /\ nobj = 0 /\ UNCHANGED <<vars, hist>>
